@@ -427,3 +427,28 @@ func c20R6(c *Ctx, rule string) {
 		c.Bad(rule, "Restore:success-path", c.P.Pos(fn.Pos()), "exactly one success return (the no-op's Error())", fmt.Sprintf("%d", nilRet))
 	}
 }
+
+// c20CreateStamp: the snapshot a user Restore writes is stamped with the
+// leader's CURRENT term (and the burned index), never with the backup's own
+// term – the snapshot store orders by term first, so a backup term would let
+// an older local snapshot shadow the restored one at the next start
+// (shared into C10).
+func c20CreateStamp(c *Ctx, rule string) {
+	fn := c.Fn(rule, "(*Raft).restoreUserSnapshot")
+	if fn == nil {
+		return
+	}
+	ss := c.P.CallsIn(fn, engine.Is("iface:SnapshotStore.Create"))
+	if len(ss) != 1 {
+		c.Bad(rule, "restoreUserSnapshot:create", c.P.Pos(fn.Pos()), "one SnapshotStore.Create call", fmt.Sprintf("%d", len(ss)))
+		return
+	}
+	term := c.P.Arg(ss[0].Instr, 2)
+	c.Check(rule, "restoreUserSnapshot:create-term", c.P.InstrPos(ss[0].Instr), "the restored snapshot is created under getCurrentTerm()", term == "recv.raftState.getCurrentTerm()", "Create(_, _, "+term+", …)", 1)
+	for _, callee := range []string{"(*raftState).setLastLog", "(*raftState).setLastSnapshot"} {
+		for _, s := range c.P.CallsIn(fn, engine.Is(callee)) {
+			t := c.P.Arg(s.Instr, 1)
+			c.Check(rule, "restoreUserSnapshot:"+callee+"-term", c.P.InstrPos(s.Instr), "positions after a user restore carry the current term", t == "recv.raftState.getCurrentTerm()", callee+"(_, "+t+")", 1)
+		}
+	}
+}
